@@ -289,3 +289,86 @@ Proof.
   split; [lia|]. split; [lia|]. unfold vid_to_bit. fold lo hi. split; [now apply run_of_NoDup|].
   intros x. now apply run_of_In.
 Qed.
+
+(* ------------------------------------------------------------------------------------------------------------------ *)
+(* 5. On dyadic height ranges the float loop makes no rounding: it is the real-number loop, i.e. the exact reference.
+      Invariant: mn = A 2^e and mx = B 2^e with integers A < B; the border is (A+B) 2^(e-1); after the step the pair is
+      (2A, A+B) or (A+B, 2B) at exponent e-1. All multipliers stay below 2^53 as long as (|A|+|B|) 2^(steps+1) <= 2^53. *)
+Lemma val_two : val 2%float = 2%R /\ fin 2%float.
+Proof.
+  unfold fin. rewrite val_Prim2SF, fin_Prim2SF.
+  change (Prim2SF 2%float) with (S754_finite false 4503599627370496 (-51)).
+  split; [|reflexivity]. cbn [SF2R cond_Zopp]. unfold F2R. cbn [Fnum Fexp].
+  change (IZR (Z.pos 4503599627370496)) with (IZR (2 ^ 52)). rewrite IZR_pow2' by lia. rewrite <- bpow_plus. reflexivity.
+Qed.
+
+Lemma halfF_exact (mx mn : pfloat) (A B e : Z) :
+  fin mx -> fin mn -> val mn = (IZR A * bpow radix2 e)%R -> val mx = (IZR B * bpow radix2 e)%R ->
+  Z.abs A + Z.abs B < 2 ^ 52 -> -1074 <= e - 1 -> e + 54 <= 1024 ->
+  val (halfF mx mn) = (IZR (A + B) * bpow radix2 (e - 1))%R /\ fin (halfF mx mn) /\ val (halfF mx mn) = halfR (val mx) (val mn).
+Proof.
+  intros Fx Fn Vn Vx Hab He1 He2. unfold halfF.
+  assert (E2 : bpow radix2 e = (2 * bpow radix2 (e - 1))%R).
+  { replace e with (1 + (e - 1)) at 1 by lia. rewrite bpow_plus. reflexivity. }
+  destruct (sub_exact mx mn Fx Fn) as [Vd Fd].
+  { rewrite Vx, Vn, <- Rmult_minus_distr_r, <- minus_IZR. apply fmt_int; lia. }
+  { rewrite Vx, Vn, <- Rmult_minus_distr_r, <- minus_IZR. apply abs_int_lt; [lia|]. unfold FloatOps.emax. lia. }
+  rewrite Vx, Vn, <- Rmult_minus_distr_r, <- minus_IZR in Vd.
+  destruct val_two as [V2 F2].
+  assert (D : (IZR (B - A) * bpow radix2 e / 2 = IZR (B - A) * bpow radix2 (e - 1))%R) by (rewrite E2; field).
+  destruct (div_exact (mx - mn)%float 2%float Fd) as [Vh Fh].
+  { rewrite V2. lra. }
+  { rewrite Vd, V2, D. apply fmt_int; lia. }
+  { rewrite Vd, V2, D. apply abs_int_lt; [lia|]. unfold FloatOps.emax. lia. }
+  rewrite Vd, V2, D in Vh.
+  assert (S : (IZR (B - A) * bpow radix2 (e - 1) + IZR A * bpow radix2 e = IZR (A + B) * bpow radix2 (e - 1))%R).
+  { rewrite E2, minus_IZR, plus_IZR. ring. }
+  destruct (add_exact ((mx - mn) / 2)%float mn Fh Fn) as [Vs Fs].
+  { rewrite Vh, Vn, S. apply fmt_int; lia. }
+  { rewrite Vh, Vn, S. apply abs_int_lt; [lia|]. unfold FloatOps.emax. lia. }
+  rewrite Vh, Vn, S in Vs.
+  split; [exact Vs|]. split; [exact Fs|].
+  rewrite Vs. unfold halfR. rewrite Vx, Vn, E2, plus_IZR. field.
+Qed.
+
+Lemma bitsF_dyadic (n : nat) : forall (alt mx mn : pfloat) (A B e acc : Z),
+  fin alt -> fin mx -> fin mn -> val mn = (IZR A * bpow radix2 e)%R -> val mx = (IZR B * bpow radix2 e)%R ->
+  Z.abs A * 2 ^ Z.of_nat n < 2 ^ 51 -> Z.abs B * 2 ^ Z.of_nat n < 2 ^ 51 -> -1074 <= e - Z.of_nat n -> e + 54 <= 1024 ->
+  bits pfloat geF halfF n alt mx mn acc = bitsR n (val alt) (val mx) (val mn) acc.
+Proof.
+  induction n as [|m IH]; intros alt mx mn A B e acc Fa Fx Fn Vn Vx HA HB He1 He2; [reflexivity|].
+  unfold bitsR in *. cbn [bits].
+  rewrite Nat2Z.inj_succ, Z.pow_succ_r in HA, HB by lia. rewrite Nat2Z.inj_succ in He1.
+  assert (Pm : 0 < 2 ^ Z.of_nat m) by (apply Z.pow_pos_nonneg; lia).
+  set (P := 2 ^ Z.of_nat m) in *.
+  assert (Ha0 : 0 <= Z.abs A) by lia. assert (Hb0 : 0 <= Z.abs B) by lia.
+  assert (HA1 : Z.abs A * 2 <= Z.abs A * (2 * P)) by nia.
+  assert (HB1 : Z.abs B * 2 <= Z.abs B * (2 * P)) by nia.
+  destruct (halfF_exact mx mn A B e Fx Fn Vn Vx ltac:(lia) ltac:(lia) He2) as (Vb & Fb & Eb).
+  rewrite geF_fin by assumption. rewrite Eb. fold (geR (val alt) (halfR (val mx) (val mn))).
+  assert (E2 : bpow radix2 e = (2 * bpow radix2 (e - 1))%R).
+  { replace e with (1 + (e - 1)) at 1 by lia. rewrite bpow_plus. reflexivity. }
+  assert (HS : Z.abs (A + B) * P < 2 ^ 51).
+  { apply Z.le_lt_trans with ((Z.abs A + Z.abs B) * P); [apply Z.mul_le_mono_nonneg_r; lia | lia]. }
+  assert (H2A : Z.abs (2 * A) * P < 2 ^ 51) by (rewrite Z.abs_mul; change (Z.abs 2) with 2; lia).
+  assert (H2B : Z.abs (2 * B) * P < 2 ^ 51) by (rewrite Z.abs_mul; change (Z.abs 2) with 2; lia).
+  destruct (geR (val alt) (halfR (val mx) (val mn))).
+  - rewrite <- Eb. apply (IH alt mx (halfF mx mn) (A + B) (2 * B) (e - 1)); try assumption; try lia.
+    rewrite Vx, E2, mult_IZR. ring.
+  - rewrite <- Eb. apply (IH alt (halfF mx mn) mn (2 * A) (A + B) (e - 1)); try assumption; try lia.
+    rewrite Vn, E2, mult_IZR. ring.
+Qed.
+
+(* FLOAT = EXACT on dyadic ranges: bounds a 2^e < b 2^e with |a| 2^zoom, |b| 2^zoom < 2^51 (e.g. +-2^k, [0,500], [-256,768], every range of
+   integers below 2^16 at every zoom up to 35). The result is the clamped floor of the normalised altitude, for every finite altitude. *)
+Theorem calc_bit_index_dyadic_exact (alt mx mn : pfloat) (a b e zoom : Z) :
+  fin alt -> fin mx -> fin mn -> val mn = (IZR a * bpow radix2 e)%R -> val mx = (IZR b * bpow radix2 e)%R -> a < b ->
+  0 <= zoom -> Z.abs a * 2 ^ zoom < 2 ^ 51 -> Z.abs b * 2 ^ zoom < 2 ^ 51 -> -1074 <= e - zoom -> e + 54 <= 1024 ->
+  calc_bit_index alt zoom mx mn =
+  clampZ 0 (2 ^ zoom - 1) (Zfloor ((val alt - val mn) / (val mx - val mn) * IZR (2 ^ zoom))).
+Proof.
+  intros Fa Fx Fn Vn Vx Hab Hz Ha Hb He1 He2. unfold calc_bit_index.
+  rewrite (bitsF_dyadic (Z.to_nat zoom) alt mx mn a b e 0) by (try assumption; rewrite Z2Nat.id by exact Hz; assumption).
+  fold (calcR (val alt) zoom (val mx) (val mn)). apply calcR_exact; [exact Hz|].
+  rewrite Vn, Vx. apply Rmult_lt_compat_r; [apply bpow_gt_0 | now apply IZR_lt].
+Qed.
